@@ -68,7 +68,11 @@ class Body:
             else:
                 for v, tg in t["arms"]:
                     out.append((tg, ("val", v)))
-                out.append((t["otherwise"], "otherwise"))
+                ev = t.get("enum_variants")
+                covered = ev is not None and {x[0] for x in ev} <= {v for v, _ in t["arms"]}
+                if not covered:
+                    # (a switch on an enum discriminant whose arms list every variant has no real `otherwise`)
+                    out.append((t["otherwise"], "otherwise"))
         elif k in ("drop", "assert"):
             out.append((t["target"], "ok"))
             if "unwind" in t:
@@ -142,7 +146,7 @@ def callee_of(t):
     return t.get("resolved") or t.get("callee")
 
 
-_GENERIC = re.compile(r"::<[^<>]*(?:<[^<>]*(?:<[^<>]*>[^<>]*)*>[^<>]*)*>")
+_GENERIC = re.compile(r"::<(?!impl )[^<>]*(?:<[^<>]*(?:<[^<>]*>[^<>]*)*>[^<>]*)*>")
 
 
 def strip_generics(path):
@@ -156,7 +160,7 @@ def strip_generics(path):
     return path
 
 
-_SKIP_KEYS = {"str", "pretty", "line", "macro", "msg", "span", "nonce", "dbg", "vars", "fields", "variant"}
+_SKIP_KEYS = {"str", "pretty", "line", "macro", "msg", "span", "nonce", "dbg", "vars", "fields", "variant", "enum_variants"}
 _REDO = re.compile(r"(?<![A-Za-z0-9_:])redo::")
 
 
